@@ -356,6 +356,10 @@ type TypeOps struct {
 	MakeSl func(n int) Sl
 	// MakeSS makes per-channel slices with the given lengths (<0: nil).
 	MakeSS func(lens []int) SS
+	// MakeSSRowHidden makes per-channel slices whose rows each have `extra`
+	// more elements of spare capacity behind them (nil rows stay nil); it
+	// returns the visible rows and, for inspection/filling, the full rows.
+	MakeSSRowHidden func(lens []int, extra int) (SS, SS)
 	// MakeSlHidden makes a slice of n elements whose backing array has `extra`
 	// more elements behind it (spare capacity); it returns the visible slice
 	// and the whole backing array for inspection.
@@ -413,6 +417,17 @@ func mkOps[T signal.SignalTypes](name string, named bool, base int) *TypeOps {
 				}
 			}
 			return &gss[T]{s: s, ti: ti}
+		},
+		MakeSSRowHidden: func(lens []int, extra int) (SS, SS) {
+			vis := make([][]T, len(lens))
+			full := make([][]T, len(lens))
+			for i, n := range lens {
+				if n >= 0 {
+					full[i] = make([]T, n+extra)
+					vis[i] = full[i][:n]
+				}
+			}
+			return &gss[T]{s: vis, ti: ti}, &gss[T]{s: full, ti: ti}
 		},
 		MakeSlHidden: func(n, extra int) (Sl, Sl) {
 			all := make([]T, n+extra)
